@@ -56,7 +56,11 @@ FAMILIES = {
     "whitespace": lambda n: " \n\t" * (8 * n) + "prc[a] : 1 = close self",
     "unterminated": lambda n: "prc[a] : 1 = close self /*" + "x" * (8 * n),
     "illegal_tail": lambda n: "prc[a] : 1 = close self @" + "x y " * (4 * n),
+    # F30: a doubling chain of unannotated type definitions (depth grows with log n, capped)
+    "typechain": lambda n: "\n".join("type A%d = A%d * A%d" % (i, i + 1, i + 1) for i in range(min(16, 2 * n.bit_length() - 4)))
+                           + "\ntype A%d = 1\n" % min(16, 2 * n.bit_length() - 4),
 }
+F30_FAMILIES = {"typechain"}
 # F28: families that go through a right-recursive list rule whose action prepends with a full copy
 F28_FAMILIES = {"decls", "types", "funs", "names", "callargs", "params", "assume", "options"}
 
@@ -136,11 +140,14 @@ def run(b, ps, tier, seed):
              "replay_cmd": "bin/check C11 --replay <this file>"}))
     # promptness: time must grow linearly with the size of one construct
     growth = measure_growth(b, tier) if not b.probe_error else {}
-    known_lines, f19 = [], []
+    known_lines, f19, f30 = [], [], []
     kf = {r.get("id"): r for r in C.known_findings(PROP)}
     for fam, row in sorted(growth.items()):
         why = superlinear(row)
         if not why:
+            continue
+        if fam in F30_FAMILIES and "F30" in kf:
+            f30.append("%s: %s" % (fam, why))
             continue
         if fam in F28_FAMILIES and "F28" in kf:
             f19.append("%s: %s" % (fam, why))
@@ -153,6 +160,8 @@ def run(b, ps, tier, seed):
              "measured": {"n": list(row[1]), "4n": list(row[2])}, "replay_cmd": "bin/check C11 --replay <this file>"}))
     if f19:
         known_lines.append(kf["F28"].get("line", "known: F28") + " [measured now: " + "; ".join(f19) + "]")
+    if f30:
+        known_lines.append(kf["F30"].get("line", "known: F30") + " [measured now: " + "; ".join(f30) + "]")
     # model side: by theorem the model never hangs; an EXN / HANG of the model means the model or its
     # fuel is wrong (reported as unproven, not as a failing input)
     model_bad = [(i, model[i]) for i, _, _ in cases if model and outcome_class(model.get(i, "MISSING")) != "result"]
